@@ -37,7 +37,7 @@ CHECKS["C10"] = dict(
 
 VTNOTE = 'Lean kernel; axioms propext, Classical.choice, Quot.sound; the terminal is Tpp.Ref.VT with the modelling decisions of DESIGN §4 (SCO save/restore of position only, G0=US-ASCII/UTF-8 off initially, ED/EL do not move the cursor, one cell per glyph); domain: graphic glyphs, constructible colours, positions inside the declared size, declared size = actual size; the library model (Tpp.Model.Terminal/Encoder) is hand-written and tied byte-for-byte and record-for-record to the real library on exhaustive sweeps and seeded random histories under ASan/UBSan; the oracle judges the REAL bytes on Ref.VT.'
 CHECKS["C01"] = dict(
-    text="The simulation theorem agree_run (belief/terminal agreement preserved by every in-domain operation, by induction over arbitrary histories) plus run_log: for every history of element/string writes interleaved with erases, cursor moves, save/restore, mode switches, titles and resizes, from a terminal in ANY unknown rendition and for both unicode_in_all_charsets values, the reference terminal's print log grows by exactly cellOf(e) for each requested element in order (text, character set, bold/faint, underline, blink, inverse, fg, bg), the terminal never meets a byte it cannot place, and every operation ends between control functions. Proved from per-function lemmas (CSI parameter rendering, SGR diff incl. the lemma that two different attributes always differ in an emitted parameter, SCS/UTF-8 switching, payload). On the pinned tree the check found blink never emitted (fixed, see known_findings.json).",
+    text="The simulation theorem agree_run (belief/terminal agreement preserved by every in-domain operation, by induction over arbitrary histories) plus run_log: for every history of element/string writes interleaved with erases, cursor moves, save/restore, mode switches, titles and resizes, from a terminal in ANY unknown rendition and for both unicode_in_all_charsets values, the reference terminal's print log grows by exactly cellOf(e) for each requested element in order (text, character set, bold/faint, underline, blink, inverse, fg, bg), the terminal never meets a byte it cannot place, and every operation ends between control functions. Proved from per-function lemmas (CSI parameter rendering, SGR diff incl. the lemma that two different attributes always differ in an emitted parameter, SCS/UTF-8 switching, payload). A second theorem (C01_rendering_any_size / C01_rendering_readme, from agreeRend_run) proves the same rendering clause with NO assumption relating positions to sizes: no set_size at all (README use), a declared size that does not match the terminal, the terminal resized behind the library's back, cursor moves to any non-negative position from any (true or false) believed position. On the pinned tree the check found blink never emitted (fixed, see known_findings.json).",
     note=VTNOTE, technique="Lean 4 simulation proof (invariant by induction over histories) against a byte-level reference VT; exhaustive attribute/charset transition sweeps + random histories as tie", ref="§5 C01")
 CHECKS["C02"] = dict(
     text="From agree_run: after ANY in-domain history (writes incl. into the last column, moves, save/restore, erases, resizes) a move to a position inside the declared size followed by a string that fits on the row lands glyph i at (x+i, y) in the reference terminal's log - for deferred-wrap, immediate-wrap and no-wrap terminals alike (the wrap mode is an unconstrained field of the terminal), for every terminal-side cursor the belief does not know. Includes the lemma that CHA/CUU/CUD/CUP from a known position land on the target and that the last column forgets the position in all three modes. On the pinned tree the check found the saved position surviving set_size (fixed).",
